@@ -5,6 +5,8 @@ import Dyce.OrderStatModel
 import Dyce.PoolCtorModel
 import Dyce.AppearModel
 import Dyce.HistOpsModel
+import Dyce.EvalConcrete
+import Dyce.ExplodeModel
 /-! Line protocol over the executable model (import-free, so it links as a `lean_exe`).
 Every op line is `OPCODE` followed by space-separated integers; lists are length-prefixed. -/
 namespace Dyce.Driver
@@ -288,6 +290,85 @@ def opSTATS : P String := do
     ++ ",".intercalate (dist.map fun op => showRat op.1 ++ "@" ++ showRat op.2)
     ++ " sum=" ++ showRat ((dist.map Prod.snd).sum))
 
+/-! ### the evaluator -/
+
+def showEvalErr : Err → String
+  | .valueError => "ValueError"
+  | .typeError => "TypeError"
+  | .recursionError => "RecursionError"
+  | .zeroDivision => "ZeroDivisionError"
+  | .user t => "User" ++ toString t
+
+def rawLimit : P RawLimit := do
+  let t ← tok
+  if t = 0 then pure .none
+  else if t = 1 then do let n ← tok; pure (.int n)
+  else do let a ← tok; let b ← tok; pure (.frac a b)
+
+def srcP : P (Src Nat) := do
+  let total ← nat
+  let res ← listOf (do let i ← nat; let c ← nat; pure (i, c))
+  pure ⟨res, total⟩
+
+def actP : P Act := do
+  let t ← tok
+  if t = 0 then do let o ← tok; pure (.out o)
+  else if t = 1 then do let h ← hist; pure (.hist h)
+  else if t = 2 then do
+    let k ← tok
+    pure (.throw (if k = 0 then .recursionError else if k = 1 then .valueError else .user k.toNat))
+  else if t = 3 then do
+    let fn ← nat; let sl ← nat; let l ← rawLimit; let c ← tok
+    pure (.rec1 fn sl l c)
+  else do
+    let f1 ← nat; let s1 ← nat; let l1 ← rawLimit
+    let f2 ← nat; let s2 ← nat; let l2 ← rawLimit
+    pure (.rec2 f1 s1 l1 f2 s2 l2)
+
+def fnP : P FnTable := do
+  let sentinel ← hist
+  let sizes ← listOf nat
+  let acts ← listOf actP
+  pure ⟨sentinel, sizes, acts.toArray⟩
+
+/-- `EVAL srcLists fns calls` : a history of top-level evaluations in one interpreter -/
+def opEVAL : P String := do
+  let sls ← listOf (listOf srcP)
+  let fns ← listOf fnP
+  let calls ← listOf (do let fn ← nat; let sl ← nat; let l ← rawLimit; pure (fn, sl, l))
+  let step (st : Cell × List String) (c : Nat × Nat × RawLimit) : Cell × List String :=
+    let (r, cell') := evalTop fns.toArray sls.toArray 100000 c.1 c.2.1 c.2.2 st.1
+    (cell', st.2 ++ [match r with
+      | .ok h => showHistAll h
+      | .error e => "err " ++ showEvalErr e])
+  let (cell, outs) := calls.foldl step (none, [])
+  pure (" ; ".intercalate outs ++ (if cell.isNone then " ; cell=unset" else " ; cell=LEAKED"))
+
+/-- `AGG n (kind payload count)*` : `aggregate_weighted` alone -/
+def opAGG : P String := do
+  let brs ← listOf (do
+    let t ← tok
+    let r ← (if t = 0 then do let o ← tok; pure (Ret.out o) else do let h ← hist; pure (Ret.hist h))
+    let c ← nat
+    pure (r, c))
+  pure (showHistAll (aggregateWeighted leI brs))
+
+/-- `EXPLODE hist nfaces faces… n` : `explode(h, face ∈ faces, limit=n)` on the evaluator model -/
+def opEXPLODE : P String := do
+  let h ← hist
+  let faces ← listOf tok
+  let n ← nat
+  match (explodeEval (n + 1) h (fun f => faces.contains f) (some (.int n)) none).1 with
+  | .ok r => pure (showHistAll r)
+  | .error e => pure ("err " ++ showEvalErr e)
+
+/-- `EXPLODESPEC hist faces n` : the truncated re-roll process, reduced to lowest terms -/
+def opEXPLODESPEC : P String := do
+  let h ← hist
+  let faces ← listOf tok
+  let n ← nat
+  pure (showHistAll (lowestTerms leI (explodeSpec h (fun f => faces.contains f) n)))
+
 def dispatch (op : String) : P String :=
   match op with
   | "RWC" => opRWC
@@ -306,6 +387,10 @@ def dispatch (op : String) : P String :=
   | "ZFILL" => opZFILL
   | "REMOVE" => opREMOVE
   | "STATS" => opSTATS
+  | "EVAL" => opEVAL
+  | "AGG" => opAGG
+  | "EXPLODE" => opEXPLODE
+  | "EXPLODESPEC" => opEXPLODESPEC
   | "OSTAT" => opOSTAT
   | "EXK" => opEXK
   | "APPEAR" => opAPPEAR
